@@ -41,6 +41,9 @@ pub struct Case {
     pub keys: Vec<BStr>,
     /// indices into MODES
     pub builds: Vec<u8>,
+    /// (uid, gid) the probe runs as (only honoured when the driver is root; otherwise inherited ids)
+    #[serde(default)]
+    pub ids: Option<(u32, u32)>,
 }
 
 /// Names the environment is built from: several are proper prefixes of others, some are not UTF-8,
@@ -192,9 +195,10 @@ pub fn startup_case(thorough: bool) -> impl Strategy<Value = Case> {
     );
     let nenv = prop_oneof![1 => Just(0usize), 6 => 1usize..=8, 3 => 9usize..=40];
     let envp = nenv.prop_flat_map(|n| prop::collection::vec(entry(), n));
-    (argv, envp, prop::collection::vec(key_spec(), 1..=8), builds(thorough, 3)).prop_map(|(argv, envp, specs, builds)| {
+    let ids = prop_oneof![1 => Just(None), 2 => (1000u32..70_000, 1000u32..70_000).prop_map(Some), 1 => (any::<u32>(), any::<u32>()).prop_map(|(u, g)| Some((u.clamp(1, u32::MAX - 2), g.clamp(1, u32::MAX - 2))))];
+    (argv, envp, prop::collection::vec(key_spec(), 1..=8), builds(thorough, 3), ids).prop_map(|(argv, envp, specs, builds, ids)| {
         let keys = specs.iter().map(|s| BStr(resolve_key(s, &envp))).collect();
-        Case { argv, envp: envp.into_iter().map(BStr).collect(), keys, builds }
+        Case { argv, envp: envp.into_iter().map(BStr).collect(), keys, builds, ids }
     })
 }
 
@@ -209,6 +213,6 @@ pub fn lookup_case(thorough: bool) -> impl Strategy<Value = Case> {
             }
         }
         let keys = specs.iter().map(|s| BStr(resolve_key(s, &envp))).collect();
-        Case { argv: vec![Arg::B(BStr(b"probe-env".to_vec()))], envp: envp.into_iter().map(BStr).collect(), keys, builds }
+        Case { argv: vec![Arg::B(BStr(b"probe-env".to_vec()))], envp: envp.into_iter().map(BStr).collect(), keys, builds, ids: None }
     })
 }
